@@ -2,13 +2,14 @@ import IgrisModel.C14.Model
 import IgrisModel.C14.Access   -- core Lean only: operator[] / front / back
 import IgrisModel.C14.Exc      -- core Lean only: the member functions with a throwing element constructor
 import IgrisModel.C14.Lemmas   -- core Lean only; for the reference machines `specStep` / `specSStep`
+import IgrisModel.C14.Model3   -- core Lean only: w-bit counter machine, writes, erase with a throwing assignment, unbounded_array storage model
 open Igris.Proto Igris.C14
 
 inductive St where
   | none
-  | sv (c : Cfg) (m : Mach)
-  | ss (c : SCfg) (m : SRegs)
-  | ua (trk : Bool) (K : Nat) (m : URegs)
+  | sv (w : Nat) (c : Cfg) (m : Mach)          -- w = bit width of `m_size` (op `width`; 64 until told otherwise)
+  | ss (w : Nat) (c : SCfg) (m : SRegs)
+  | ua (trk : Bool) (K : Nat) (m : URegsS)     -- unbounded_array on the storage level
   | svH (c : Cfg) (sp : List (Option (List Elem)))   -- capacities ≥ 1000: the reference machine of `sv_history_refines`
   | ssH (c : SCfg) (sp : List (Option (List Byte)))  --   (the slot model is quadratic in N), contents as a digest
   | dead
@@ -69,6 +70,8 @@ def parseOp (w : List String) : Option Op :=
   | ["copy", r, s] => do pure (.copy (← r.toNat?) (← s.toNat?))
   | ["move", r, s] => do pure (.move (← r.toNat?) (← s.toNat?))
   | "range" :: r :: xs => do pure (.range (← r.toNat?) (← nats xs))
+  | "rangev" :: r :: xs => do pure (.range (← r.toNat?) (← nats xs))   -- std::vector<T>::const_iterator
+  | "ranges" :: r :: xs => do pure (.range (← r.toNat?) (← nats xs))   -- begin()/end() of a static_vector with a larger N
   | "il" :: r :: xs => do pure (.il (← r.toNat?) (← nats xs))
   | ["acopy", r, s] => do pure (.acopy (← r.toNat?) (← s.toNat?))
   | ["amove", r, s] => do pure (.amove (← r.toNat?) (← s.toNat?))
@@ -99,6 +102,7 @@ def parseSOp (w : List String) : Option SOp :=
   | ["scstr", r] => do pure (.cstr (← r.toNat?))
   | ["sget", r, i] => do pure (.get (← r.toNat?) (← i.toNat?))
   | ["sset", r, i, c] => do pure (.set (← r.toNat?) (← i.toNat?) (← byte? c))
+  | ["ssetv", r, i, c, _] => do pure (.set (← r.toNat?) (← i.toNat?) (← byte? c))   -- through data() / begin()
   | ["sdel", r] => do pure (.del (← r.toNat?))
   | _ => none
 
@@ -131,14 +135,27 @@ def parseUOp (w : List String) : Option UOp :=
   | ["finish"] => pure .finish
   | _ => none
 
-def showURegs (K : Nat) (m : URegs) : String :=
+def showURegs (K : Nat) (m : URegsS) : String :=
   " ".intercalate ((List.range K).map fun r =>
     match m r with
     | none => s!"{r}:-"
-    | some a => s!"{r}:{a.length}[{",".intercalate (a.map toString)}]")
+    | some a => s!"{r}:{a.size}[{",".intercalate (a.contents.map showElem)}]")
 
-def liveU (K : Nat) (m : URegs) : Nat :=
-  ((List.range K).map fun r => match m r with | none => 0 | some a => a.length).sum
+/-- live objects = occupied slots of all blocks -/
+def liveU (K : Nat) (m : URegsS) : Nat :=
+  ((List.range K).map fun r => match m r with
+    | none => 0
+    | some a => (a.slots.filter fun s => match s with | .obj _ => true | .raw => false).length).sum
+
+/-- the write operations (`step3`) -/
+def parseOp3 (w : List String) : Option Op3 :=
+  match w with
+  | "wat" :: r :: i :: x :: _ => do pure (.setAt (← r.toNat?) (← i.toNat?) (← x.toNat?))
+  | ["wfront", r, x] => do pure (.setFront (← r.toNat?) (← x.toNat?))
+  | ["wback", r, x] => do pure (.setBack (← r.toNat?) (← x.toNat?))
+  | ["wfill", r, x] => do pure (.fill (← r.toNat?) (← x.toNat?))
+  | ["take", r, i] => do pure (.take (← r.toNat?) (← i.toNat?))
+  | _ => none
 
 def junkOf (N : Nat) : List Byte := List.replicate (N + 1) 0xAA
 
@@ -149,25 +166,66 @@ def stepLine (st : St) (line : String) : St × String :=
       match n.toNat?, k.toNat? with
       | some n, some k =>
           if n ≥ hugeN then (.svH ⟨n, k, tw == "p", ty == "trk"⟩ [], "ok")
-          else (.sv ⟨n, k, tw == "p", ty == "trk"⟩ Mach.init, "ok")
+          else (.sv 64 ⟨n, k, tw == "p", ty == "trk"⟩ Mach.init, "ok")
       | _, _ => (.none, "bad-reset")
   | ["reset", "ss", tw, n, k, _] =>
       match n.toNat?, k.toNat? with
       | some n, some k =>
           if n ≥ hugeN then (.ssH ⟨n, k, tw == "p", []⟩ [], "ok")
-          else (.ss ⟨n, k, tw == "p", junkOf n⟩ (fun _ => none), "ok")
+          else (.ss 64 ⟨n, k, tw == "p", junkOf n⟩ (fun _ => none), "ok")
       | _, _ => (.none, "bad-reset")
   | ["reset", "ua", ty, k] =>
       match k.toNat? with
       | some k => (.ua (ty == "trk") k (fun _ => none), "ok")
       | none => (.none, "bad-reset")
   | "reset" :: _ => (.none, "ok")
+  | ["premain"] =>
+      -- the history the harness's init_priority(101) objects ran before main(), on the model
+      let one (port : Bool) : String :=
+        let c : Cfg := ⟨3, 2, port, false⟩
+        let v := match runW 64 c [.new 0, .push 0 1, .push 0 2, .push 0 3, .push 0 4, .copy 1 0, .resize 0 1] Mach.init with
+          | .ok m => " ".intercalate ((List.range 2).map fun r => match m.regs r with
+              | some v => s!"{v.size}/{v.room 3}[{",".intercalate (v.contents.map showElem)}]"
+              | none => "-")
+          | .error f => showFault f
+        let s := match (do
+            let s ← sCtorPtrW 64 3 (junkOf 3) [0x61, 0x62, 0x63, 0x64, 0x65, 0x66, 0]
+            let s ← sPushW 64 3 s 0x78
+            let (s, out) ← sCStr s
+            pure (s.size, out)) with
+          | .ok (n, out) => s!"{n}:{String.mk (out.map fun (b : Byte) => Char.ofNat b.toNat)}"
+          | .error f => showFault f
+        s!"{v} {s}"
+      (st, s!"c={one false} p={one true}")
   | _ =>
     match st with
     | .none => (.none, "no-case")
     | .dead => (.dead, "after-fault")
-    | .sv c m =>
+    | .sv wd c m =>
         match w with
+        | ["width", x] =>
+            -- the harness read `8 * sizeof(m_size)` out of the compiled code: from here on the counter has that width
+            match x.toNat? with
+            | some x => (.sv x c m, s!"w={x} slots={(rawStore c.N).length}")
+            | none => (st, "bad-op")
+        | "thra" :: a :: "erase" :: rest =>
+            -- `thra a erase r i j`: the (a+1)-th element move-assignment inside erase throws
+            match a.toNat?, nats rest with
+            | some a, some [r, i, j] =>
+                if !c.trk || c.port then (st, "bad")
+                else
+                match decide (r < c.K), m.regs r with
+                | true, some v =>
+                    if i ≤ j ∧ j ≤ v.size then
+                      match eraseX c.trk v i j a with
+                      | .error f => (.dead, showFault f)
+                      | .ok (v', tr, t) =>
+                          let ev := glob r r tr
+                          let m' := (m.log (setReg m.regs r (some v')) ev).1
+                          (.sv wd c m', s!"{showRegs c m'} | {showEvents c ev} | {toString (m'.nctor - m'.ndtor)} | {if t then "threw" else "done"}")
+                    else (st, "bad")
+                | _, _ => (st, "bad")
+            | _, _ => (st, "bad-op")
         | "thr" :: k :: rest =>
             -- `thr k <op>`: the (k+1)-th element construction of the operation throws
             match k.toNat?, parseOp rest with
@@ -176,9 +234,9 @@ def stepLine (st : St) (line : String) : St × String :=
                 else
                 match stepX c m op k with
                 | .error f => (.dead, showFault f)
-                | .ok (m', none, _) => (.sv c m', "bad")
+                | .ok (m', none, _) => (.sv wd c m', "bad")
                 | .ok (m', some ev, t) =>
-                    (.sv c m', s!"{showRegs c m'} | {showEvents c ev} | {toString (m'.nctor - m'.ndtor)} | {if t then "threw" else "done"}")
+                    (.sv wd c m', s!"{showRegs c m'} | {showEvents c ev} | {toString (m'.nctor - m'.ndtor)} | {if t then "threw" else "done"}")
             | _, _ => (st, "bad-op")
         | ["at", r, i] =>
             match r.toNat?, i.toNat? with
@@ -209,26 +267,39 @@ def stepLine (st : St) (line : String) : St × String :=
             match parseOp w with
             | none => (st, "bad-op")
             | some op =>
-              match step c m op with
+              match stepW wd c m op with
               | .error f => (.dead, showFault f)
-              | .ok (m', none) => (.sv c m', "bad")
-              | .ok (m', some ev) => (.sv c m', s!"{showRegs c m'} | {showEvents c ev} | {if c.trk then toString (m'.nctor - m'.ndtor) else "-"}")
+              | .ok (m', none) => (.sv wd c m', "bad")
+              | .ok (m', some ev) => (.sv wd c m', s!"{showRegs c m'} | {showEvents c ev} | {if c.trk then toString (m'.nctor - m'.ndtor) else "-"}")
         | _ =>
+        match parseOp3 w with
+        | some op3 =>
+          match step3 c m op3 with
+          | .error f => (.dead, showFault f)
+          | .ok (m', none) => (.sv wd c m', "bad")
+          | .ok (m', some ev) => (.sv wd c m', s!"{showRegs c m'} | {showEvents c ev} | {if c.trk then toString (m'.nctor - m'.ndtor) else "-"}")
+        | none =>
         match parseOp w with
         | none => (st, "bad-op")
         | some op =>
-          match step c m op with
+          match stepW wd c m op with
           | .error f => (.dead, showFault f)
-          | .ok (m', none) => (.sv c m', "bad")
-          | .ok (m', some ev) => (.sv c m', s!"{showRegs c m'} | {showEvents c ev} | {if c.trk then toString (m'.nctor - m'.ndtor) else "-"}")
+          | .ok (m', none) => (.sv wd c m', "bad")
+          | .ok (m', some ev) => (.sv wd c m', s!"{showRegs c m'} | {showEvents c ev} | {if c.trk then toString (m'.nctor - m'.ndtor) else "-"}")
     | .svH c sp =>
         -- only operations inside the contract are generated for these capacities
+        match w with
+        | ["width", x] => (st, s!"w={x} slots={c.N}")
+        | _ =>
         match parseOp w with
         | none => (st, "bad-op")
         | some op =>
           let sp' := regsTo c.K (specStep c (regsOf sp) op)
           (.svH c sp', s!"{" ".intercalate ((List.range c.K).map fun r => showVecH c.N r ((sp'[r]?).join))} | - | -")
     | .ssH c sp =>
+        match w with
+        | ["width", x] => (st, s!"w={x} bytes={c.N + 1}")
+        | _ =>
         match parseSOp w with
         | none => (st, "bad-op")
         | some op =>
@@ -248,11 +319,40 @@ def stepLine (st : St) (line : String) : St × String :=
         match parseUOp w with
         | none => (st, "bad-op")
         | some op =>
-          match ustep K m op with
-          | none => (st, "bad")
-          | some m' => (.ua trk K m', s!"{showURegs K m'} | {if trk then toString (liveU K m') else "-"}")
-    | .ss c m =>
+          match ustepS K m op with
+          | .error f => (.dead, showFault f)
+          | .ok none => (st, "bad")
+          | .ok (some m') => (.ua trk K m', s!"{showURegs K m'} | {if trk then toString (liveU K m') else "-"}")
+    | .ss wd c m =>
         match w with
+        | ["width", x] =>
+            match x.toNat? with
+            | some x => (.ss x c m, s!"w={x} bytes={c.junk.length}")
+            | none => (st, "bad-op")
+        | ["sgetany", r, i] =>
+            -- operator[] at any position <= N: inside data[N+1]; the byte is compared below size() only
+            match r.toNat?, i.toNat? with
+            | some r, some i =>
+                match decide (r < c.K ∧ i ≤ c.N), m r with
+                | true, some s =>
+                    match sGetAny s i with
+                    | .error f => (.dead, showFault f)
+                    | .ok b => (st, if i < s.size then byteHex b else "in")
+                | _, _ => (st, "bad")
+            | _, _ => (st, "bad-op")
+        | ["sstoi", r] =>
+            -- stoi(static_string) reads through c_str(): the terminator is written, the number is judged by the harness
+            match r.toNat? with
+            | some r =>
+                match decide (r < c.K ∧ c.port = true), m r with
+                | true, some s =>
+                    match sCStr s with
+                    | .error f => (.dead, showFault f)
+                    | .ok (s', _) =>
+                        let m' := setSReg m r (some s')
+                        (.ss wd c m', s!"num | {showSRegs c m'}")
+                | _, _ => (st, "bad")
+            | none => (st, "bad-op")
         | ["ssplit", r, d, vs, ss] =>
             match r.toNat?, byte? d, vs.toNat?, ss.toNat? with
             | some r, some d, some vs, some ss =>
@@ -267,9 +367,9 @@ def stepLine (st : St) (line : String) : St × String :=
         match parseSOp w with
         | none => (st, "bad-op")
         | some op =>
-          match sstep c m op with
+          match sstepW wd c m op with
           | .error f => (.dead, showFault f)
-          | .ok (m', .bad) => (.ss c m', "bad")
-          | .ok (m', o) => (.ss c m', s!"{showSOut o} | {showSRegs c m'}")
+          | .ok (m', .bad) => (.ss wd c m', "bad")
+          | .ok (m', o) => (.ss wd c m', s!"{showSOut o} | {showSRegs c m'}")
 
 def main : IO Unit := run St.none stepLine
